@@ -1,7 +1,7 @@
 """C03 - update changes exactly the matching points, with documented merge semantics (DESIGN 4, C03)."""
 
 from .. import ladder, observers, qast, world as W
-from .base import E1Check, viol
+from .base import E1Check, viol, buffered_writes_off, option_configs, CFG4
 from .c01 import std_ops
 
 UPDATE_OPS = ("update", "update_all")
@@ -103,7 +103,7 @@ class C03(E1Check):
                 c["D"] = 4 if c["name"] == "mem/auto" else 3
         lad = ladder.configs(self.ladder_sizes(), storages=("mem", "csv"), autos=(True,), D=2, big_depth=1 if self.tier == "quick" else None)
         lad += ladder.configs(self.ladder_sizes()[:1], storages=("csv",), autos=(False,), D=2)
-        return cfgs + lad
+        return cfgs + option_configs(self.tier) + lad
 
     def budget(self):
         return 600 if self.tier == "quick" else 1200
@@ -120,18 +120,21 @@ class C03(E1Check):
                 P.append(("update_all", spec, "h:m"))
                 P.append(("update_all", spec, "h:zz"))
             self._probes = P
-            self._probe_set = set(P)
+            # what is a probe must not depend on which configuration a worker happens to see first (replay fidelity)
+            self._probe_set = set(P) - {op for c in CFG4 for op in self._base(c)}
         return self._probes
 
-    def op_list(self, cfg):
-        self.probes()
+    def _base(self, cfg):
         base = std_ops(self.alpha, cfg, self.tier)
         # static mappings that reach points with empty tag / field sets, and a later update of only one of them
         base += [("insert", "P9", None, False, "db"),
                  ("update_all", W.mkspec(tags={"b": self.alpha.q}), "db"),
                  ("update", ("cmp", "measurement", (), "==", "n"), W.mkspec(tags={"b": self.alpha.y}, fields={"w": 9}), None, "db")]
-        self._probe_set -= set(base)
-        return base + [p for p in self._probes if p in self._probe_set]
+        return base
+
+    def op_list(self, cfg):
+        self.probes()
+        return self._base(cfg) + [p for p in self._probes if p in self._probe_set]
 
     def ladder_op_list(self, cfg):
         n = cfg["ladder"]
@@ -140,11 +143,11 @@ class C03(E1Check):
         extra = [("update", q, sp, m, "db") for q in self.ladder_vocab(n)[:12] for sp in forms for m in (None, "big")]
         extra += [("update_all", sp, "h:big") for sp in forms]
         have = set(base)
-        self._ladder_probes = {e for e in extra if e not in have}
+        self._lp[cfg["name"]] = {e for e in extra if e not in have}
         return base + [e for e in extra if e not in have]
 
-    def is_probe(self, op):
-        return op in getattr(self, "_probe_set", ()) or op in getattr(self, "_ladder_probes", ())
+    def is_std_probe(self, op):
+        return op in self._probe_set
 
     def coverage_extra(self, res):
         return {"update_probes_per_state": len(self.probes()), "update_forms": [n for n, _ in self.specs]}
@@ -178,9 +181,9 @@ class C03(E1Check):
             out.append(viol("update-contents", sig + "|" + what, observed=T.post, expected=exp, detail=f"pre={T.pre!r}"))
         if T.outcome[:2] != exp_out:
             out.append(viol("update-count", sig + "|count", observed=T.outcome, expected=exp_out))
-        if nchg == 0 and T.pre_bytes is not None and T.pre_bytes != T.post_bytes:
+        if nchg == 0 and T.pre_bytes is not None and buffered_writes_off(T.cfg) and T.pre_bytes != T.post_bytes:
             out.append(viol("noop-update-bytes", sig + "|noop-changes-file", observed=T.post_bytes, expected=T.pre_bytes))
-        if not out and T.post_valid and self.is_probe(T.op) and (nchg or T.outcome[:2] != ("ret", 0)):
+        if not out and T.post_valid and self.is_probe(T.op, T.cfg) and (nchg or T.outcome[:2] != ("ret", 0)):
             out += [dict(v, kind="transition") for v in observers.index_equiv("C03", T.world.db, T.post, self.ivocab, counters, tag=f"|after-{k}")]
         return out
 
